@@ -5,5 +5,5 @@ CONSTANTS
   Menu <- FullMenu
   InitTrees <- Trees
   Mutant = "early_release"
-INVARIANTS Refines PrefixFreeAbs NoRace Exclusive
+INVARIANTS Refines PrefixFreeAbs NoRace Exclusive NoPhantom
 PROPERTIES Terminates
